@@ -3,7 +3,7 @@ from .common import *
 from spec.requests import *       # noqa
 from .ledger_protocol import PINOBJ, PERR, PINT
 
-V2 = NEW("ledger.protocol:HSM2ProtocolLedger", PINOBJ, DONGLE)
+V2 = NEW("ledger.protocol:HSM2ProtocolLedger", PINOBJ, DONGLE, _comm_issue=BOOL_)
 BASE = ["C02", "C03"]
 
 
@@ -54,3 +54,131 @@ class ValidateUIHeartbeat(_Validator):
                 and len(unhex(jstr(request["udValue"]))) == 32)
         return (result == 0) == good and (result == 0 or result == -301)
     ensures = [verdict]
+
+
+# ---- key id / auth / message / sign / getPubKey validators --------------------------------------------------------
+path_syntax = tm_FunDecl = None
+from pyvc import terms as _tm
+from pyvc.terms import STR as _STR, BOOL as _BOOL
+_path_syntax = _tm.FunDecl("bip32.path_syntax", [_STR], _BOOL)
+
+
+@native
+def path_syntax(ip, st, s):
+    """the key id grammar of comm/bip32.py (m/ followed by exactly five decimal elements, each optionally
+    hardened): an uninterpreted predicate whose definition is the contract of BIP32Path.__init__"""
+    from pyvc.values import to_term, as_value
+    return as_value("bool", _path_syntax(to_term(s)))
+
+
+@contract("comm/bip32.py", "BIP32Path.__init__", serves=BASE + ["C01", "C13"])
+class PathInit(Contract):
+    assume_only = True
+    assumptions = ["BIP32Path.__init__: assumed contract (string parsing not yet verified): raises ValueError exactly when "
+                   "the key id is not m/ + five decimal elements; establishes the class invariant of BIP32Path"]
+    self_spec = OBJ("comm.bip32:BIP32Path")
+    params = dict(spec=STR_, nelements=CONST(5))
+    pure = True
+    modifies_self = dict(_elements=PYLIST(ELEM, ELEM, ELEM, ELEM, ELEM))
+
+    def wellformed(self, spec): return path_syntax(spec) and path_wf(self)
+    ensures = [wellformed]
+    def rejected(spec): return not path_syntax(spec)
+    raises = {"ValueError": Exc(args=[STR_], post=[rejected])}
+
+
+def keyid_ok(request):
+    return jhas(request, "keyId") and jtag(request["keyId"]) == T_STR and path_syntax(jstr(request["keyId"]))
+
+
+@contract("comm/protocol.py", "HSM2Protocol._validate_get_pubkey", serves=BASE)
+class ValidateGetPubkey(_Validator):
+    pure = True
+    inline_callees = ("HSM2Protocol._validate_key_id",)
+
+    def verdict(result, request, old):
+        return (result == 0) == keyid_ok(old.request) and (result == 0 or result == -103)
+    def key_id_replaced_by_path(result, request):
+        if result == 0:
+            return is_instance(request["keyId"], BIP32PATH) and path_wf(request["keyId"])
+        return True
+    ensures = [verdict, key_id_replaced_by_path]
+
+
+BIP32PATH = REPO("comm.bip32:BIP32Path")
+
+
+@contract("comm/protocol.py", "HSM2Protocol._validate_sign", serves=BASE)
+class ValidateSign(_Validator):
+    inline_callees = ("HSM2Protocol._validate_key_id", "HSM2Protocol._validate_auth", "HSM2Protocol._validate_message")
+    max_paths = 6000
+
+    def verdict(result, request, old):
+        r = old.request
+        return (implies(not keyid_ok(r), result == -103)
+                and implies(keyid_ok(r) and jhas(r, "auth") and not valid_auth(r["auth"]), result == -101)
+                and implies(keyid_ok(r) and (not jhas(r, "auth") or valid_auth(r["auth"]))
+                            and not (jhas(r, "message") and valid_message_any(r["message"])), result == -102)
+                and implies(keyid_ok(r) and sign_validated(r), result == 0))
+    def key_id_replaced_by_path(result, request):
+        if result == 0:
+            return is_instance(request["keyId"], BIP32PATH) and path_wf(request["keyId"])
+        return True
+    ensures = [verdict, key_id_replaced_by_path]
+
+
+# ---- the gate and the dispatch -------------------------------------------------------------------------------
+from spec.protocol_doc import in_docset      # noqa
+from .hsm2dongle_basic import ok             # noqa
+
+
+def code_of(result):
+    return result["errorcode"]
+
+
+def known_command(c):
+    return (c == "version" or c == "sign" or c == "getPubKey" or c == "advanceBlockchain" or c == "resetAdvanceBlockchain"
+            or c == "blockchainState" or c == "updateAncestorBlock" or c == "blockchainParameters"
+            or c == "signerHeartbeat" or c == "uiHeartbeat")
+
+
+@contract("comm/protocol.py", "HSM2Protocol.__internal_handle_request", serves=["C02", "C03", "C04", "C11", "C13", "C01"])
+class InternalHandleRequest(Contract):
+    self_spec = V2
+    params = dict(request=JSONOV())
+    result = PYDICT(errorcode=INT_)
+    modifies_self = dict(_comm_issue=BOOL_)
+    max_paths = 20000
+    exception_serves = ("C03",)
+    # validators mutate the request (keyId -> BIP32Path): they are inlined here and verified separately
+    inline_callees = ("HSM2Protocol._validate_sign", "HSM2Protocol._validate_get_pubkey",
+                      "HSM2Protocol._validate_advance_blockchain", "HSM2Protocol._validate_update_ancestor_block",
+                      "HSM2Protocol._validate_signer_heartbeat", "HSM2Protocol._validate_ui_heartbeat",
+                      "HSM2Protocol._validate_key_id", "HSM2Protocol._validate_auth", "HSM2Protocol._validate_message")
+
+    def pin_invariant(self): return len(self.pin._pin) == 8 and not self.pin._changing
+    requires = [pin_invariant]
+
+    # ---- C03: one JSON object with an integer error code
+    @only("C03")
+    def reply_has_integer_errorcode(result): return is_int(result["errorcode"])
+    # ---- C02: the generic gate, as docs/protocol.md "Generic errors" prescribes
+    @only("C02")
+    def gate(result, old):
+        r = old.request
+        c = code_of(result)
+        return (implies(jtag(r) != T_DICT, c == -901)
+                and implies(jtag(r) == T_DICT and not jhas(r, "command"), c == -902)
+                and implies(jtag(r) == T_DICT and jhas(r, "command") and not jeq_str(r["command"], "version")
+                            and not jhas(r, "version"), c == -902)
+                and implies(jtag(r) == T_DICT and jhas(r, "command") and jhas(r, "version") and not jeq_int(r["version"], 5)
+                            and (jeq_str(r["command"], "version") or True), c == -904 or c == -902)
+                and implies(jtag(r) == T_DICT and jhas(r, "command") and (jhas(r, "version") and jeq_int(r["version"], 5))
+                            and not (jtag(r["command"]) == T_STR and known_command(jstr(r["command"]))), c == -903))
+    @only("C02")
+    def rejected_requests_never_reach_the_device(g, old):
+        """every return taken before the operation is dispatched (gate or validator rejection) has sent nothing"""
+        return ghost_same_log(g, old.g)
+    at_exit_if_unbound = [("operation_result", rejected_requests_never_reach_the_device)]
+    ensures = [reply_has_integer_errorcode, gate]
+    raises = {PERR: Exc(args=[STR_]), PINT: Exc()}
